@@ -225,6 +225,33 @@ def run(ctx, rep):
             elif hint_b and end_a and not hint_a:
                 ok = src['op'] == 'Gt'
                 why = 'the hint is accepted when `total_clusters + 2 %s hint`' % src['op']
+        if not ok:
+            # the same test written as `hint.filter(|&n| n < end_cluster)`: the comparison lives in the closure
+            for b, t in AC.calls():
+                if not (t.get('callee') or '').endswith('Option::filter') or len(t['args']) != 2:
+                    continue
+                if ('param', 4) not in d.of_operand(t['args'][0]):
+                    continue
+                envt = d.of_operand(t['args'][1])
+                if not (('param', 5) in envt and ('const', 2) in envt):
+                    continue
+                for tk in envt:
+                    if tk[0] != 'closure' or tk[1] not in facts.fns:
+                        continue
+                    cf = facts.fns[tk[1]]
+                    cd = Deps(cf)
+                    for bi in cf.reachable():
+                        for s_ in cf.blocks[bi]['stmts']:
+                            if s_['k'] == 'assign' and s_['rv']['k'] == 'binop' and s_['rv']['op'] in ('Lt', 'Le', 'Gt', 'Ge'):
+                                ca, cb = cd.of_operand(s_['rv']['a']), cd.of_operand(s_['rv']['b'])
+                                el_a, el_b = ('param', 2) in ca, ('param', 2) in cb
+                                env_a, env_b = ('param', 1) in ca, ('param', 1) in cb
+                                if el_a and env_b and not el_b:
+                                    ok = s_['rv']['op'] == 'Lt'
+                                    why = 'the hint is kept when `hint %s total_clusters + 2` (filter closure)' % s_['rv']['op']
+                                elif el_b and env_a and not el_a:
+                                    ok = s_['rv']['op'] == 'Gt'
+                                    why = 'the hint is kept when `total_clusters + 2 %s hint` (filter closure)' % s_['rv']['op']
         rep.oblige('R10.4.hint', AC.name, ok=ok, nontrivial=True, sample={'fn': AC.name, 'clamp': why})
         if not ok:
             rep.violation('R10.4', vkey('R10.4', AC.name, 'hint-clamp', ''), AC.loc(AC.span),
